@@ -81,6 +81,10 @@ func init() {
 			rep.Conc = append(rep.Conc, concRes{fsrep.ConcConfig{Writers: 1, PerW: 7, Seed: -1}, mm})
 			rep.Problems += len(mm)
 		}
+		if mm := fsrep.RunDirRemoved(); true {
+			rep.Conc = append(rep.Conc, concRes{fsrep.ConcConfig{Writers: 1, PerW: 3, Seed: -2}, mm})
+			rep.Problems += len(mm)
+		}
 		labels := []string{"fs.opened", "fs.written", "fs.counted", "fs.r.closed", "fs.r.renamed", "fs.r.pruned"}
 		for _, toor := range []bool{false, true} {
 			for _, lb := range labels {
